@@ -58,9 +58,84 @@ def rule_struct_segment(chk, facts):
         raise AnalysisBroken('CodeSTRUCT: bookkeeping stores not found')
 
 
+def rule_address_modulo(chk, facts, P):
+    chk.rule('C10-R10', 'rounding of the program counter to a multiple (ALIGN, DS.x 0, padding) is computed in the address '
+             'type: no modulo has a dividend that holds a program-counter value narrowed to a signed type (a negative '
+             'dividend makes % round towards zero, i.e. past the next multiple for addresses from $80000000 on)',
+             min_instances=2)
+
+    def pc_call(e):
+        return mentions(e, lambda x: isinstance(x, (list, tuple)) and len(x) > 1 and x[0] == 'call' and
+                        callee_name(x) in ('EProgCounter', 'ProgCounter'))
+    n = 0
+    for f in P.all_funcs():
+        if is_generator_unit(f.unit.name):
+            continue
+        pcvars, narrowed = set(), {}
+        for b, i, ln, m in f.nodes():
+            if is_assign(m) and m[1] == '=' and strip(m[2])[0] == 'l' and pc_call(m[3]):
+                r = m[3]
+                while isinstance(r, (list, tuple)) and r and r[0] in ('ref', 'cf'):
+                    r = r[1]
+                pcvars.add(strip(m[2]))
+                if r[0] == 'cast' and isinstance(r[2], int) and r[2] < 0 and isinstance(r[3], int) and abs(r[3]) > abs(r[2]) and \
+                        not mentions(r[4], lambda x: isinstance(x, (list, tuple)) and len(x) > 2 and x[0] == 'b' and x[1] == '-' and
+                                     pc_call(x[3])):
+                    narrowed[strip(m[2])] = (ln, r[2], r[3])
+        for b, i, ln, m in f.nodes():
+            if m[0] == 'b' and m[1] in ('%', '%='):
+                d = strip(m[2])
+                if not (pc_call(m[2]) or d in pcvars):
+                    continue
+                n += 1
+                ok = d not in narrowed
+                chk.ob('C10-R10', '%s:%s:%s' % (f.unit.name, f.name, show(m)[:50]), ok, f.loc(ln),
+                       'dividend in the address type' if ok else
+                       '%s holds the program counter narrowed from %d to signed %d bits (line %d): from $80000000 on it is '
+                       'negative and the rounding overshoots by one multiple' % (show(d), narrowed[d][2], -narrowed[d][1], narrowed[d][0]))
+    if n < 2:
+        raise AnalysisBroken('only %d address modulo operations found' % n)
+
+
+def rule_address_operands(chk, facts, P):
+    chk.rule('C10-R11', 'ORG and PHASE agree on how an absolute address operand reaches the bookkeeping: a value that is '
+             'assigned (=) to PCs[] or Phases[] and comes from an expression evaluation is held in an unsigned variable of '
+             'the address width, not in a narrower signed one (sign extension into the 64-bit counters)', min_instances=2)
+    n = 0
+    for f in P.all_funcs():
+        if f.unit.name not in CORE_UNITS:
+            continue
+        evald = {}
+        for b, i, ln, m in f.nodes():
+            if is_assign(m) and m[1] == '=' and strip(m[2])[0] == 'l' and (callee_name(nocast(m[3])) or '').startswith('EvalStrIntExpression'):
+                evald[strip(m[2])] = ln
+        if not evald:
+            continue
+        for b, i, ln, m in f.nodes():
+            if not (is_assign(m) and m[1] == '='):
+                continue
+            t = strip(m[2])
+            if not (t[0] == 'i' and strip(t[1])[0] == 'g' and strip(t[1])[1] in ('PCs', 'Phases')):
+                continue
+            for x in walk(m[3]):
+                if isinstance(x, (list, tuple)) and x and x[0] == 'l' and strip(x) in evald:
+                    ty = f.locals.get(x[1], {})
+                    n += 1
+                    ok = ty.get('bits', 0) >= 64 or (ty.get('bits', 0) > 0 and ty.get('size', 0) >= 8)
+                    chk.ob('C10-R11', '%s:%s:%s<-%s' % (f.unit.name, f.name, strip(t[1])[1], x[1]), ok, f.loc(ln),
+                           'operand held in %s' % ty.get('t') if ok else
+                           'the address operand is held in %s (%d bits, %s) before it is stored into %s[]: an address with the '
+                           'top bit of that width set is sign-extended into the 64-bit bookkeeping' %
+                           (ty.get('t'), abs(ty.get('bits', 0)), 'signed' if ty.get('bits', 0) < 0 else 'unsigned', strip(t[1])[1]))
+    if n < 2:
+        raise AnalysisBroken('ORG/PHASE operand stores not found')
+
+
 def run(chk, facts, info):
     P = facts.program('asl')
     rule_struct_segment(chk, facts)
+    rule_address_operands(chk, facts, P)
+    rule_address_modulo(chk, facts, P)
     chk.rule('C10-R8', 'logical (PHASE-adjusted, EProgCounter()) and physical (ProgCounter()) addresses are never compared, '
              'subtracted or assigned across: a global assigned only from one kind is compared only with that kind',
              min_instances=2)
